@@ -291,6 +291,16 @@ def r05_3(ctx, g, helpers):
                     break
             ctx.check(bad is None, "R05.3", h.where(lc), f"`{elem}` enters a region's result exactly when its interval [start,end) intersects the inclusive region [a,b] (start <= b and a < end), on all orderings", key_of(h, f"region-filter:{bad['ordering'] if bad else ''}:{bad['problem'] if bad else ''}"), rows=rows, **({"witness": bad} if bad else {}))
             ctx.check(norm(gen.iter) == lst, "R05.3", h.where(lc), "the search examines every indexed node of the contig", key_of(h, f"partial-scan:{norm(gen.iter)}"))
+    if n_sites == 0:
+        # no per-node decision at all: a result cut out of the list as one slice decides membership from one end of the
+        # interval only (the indexed nodes of a contig have gaps: the node before a gap ends before the region starts)
+        for h, call in helpers:
+            lst = h.params[1] if len(h.params) > 1 else None
+            for r in walk_own(h.node):
+                if isinstance(r, ast.Return) and isinstance(r.value, ast.Subscript) and isinstance(r.value.slice, ast.Slice) and norm(r.value.value) == lst:
+                    reads = {const_value(x.slice) for x in walk_own(h.node) if isinstance(x, ast.Subscript) and isinstance(const_value(x.slice), int) and not (isinstance(x.value, ast.Name) and x.value.id == h.params[0])}
+                    if 3 not in reads:
+                        ctx.violated("R05.3", h.where(r), f"the nodes of a region are returned as one slice `{norm(r.value)}` located from the node starts alone: the end of the first node of the slice is never compared with the region start, so an aligned node that ends before the region (the node in front of a gap) is returned", key_of(h, "slice-without-end-check"))
     ctx.require_count("R05.3", n_sites, 1, g.where(), "insertions of indexed nodes into a region's result")
     if partial and not any(i.verdict == "violated" and i.rule == "R05.3" for i in ctx.instances):
         h, loop = partial[0]
@@ -397,6 +407,20 @@ def r05_4(ctx, v, g, helpers):
     ctx.check(bad is None, "R05.4", g.where(region_loop), "every region is searched and all nodes found under it (their ids) are added to the node list", key_of(g, f"region-flow:{bad[1] if bad else ''}"), paths=len(paths), **({"path": bad[0].show(), "why": bad[1]} if bad else {}))
     # the search is handed this region's own contig / start / end and the node list of that contig
     region_triple(ctx, g, region_loop, call)
+    # ... and a node list looked up (or built) in this very iteration, not one left over from the previous region
+    if len(call.args) > 1 and isinstance(call.args[1], ast.Name):
+        lv = call.args[1].id
+        stale = None
+        for p in paths:
+            seen = False
+            for e in p.events:
+                if e.kind == "stmt" and isinstance(e.node, ast.Assign) and any(norm(t) == lv for t in e.node.targets) and not any(x.kind == "exc" and x.node is e.node for x in p.events):
+                    seen = True
+                if e.kind == "stmt" and any(x is call for x in ast.walk(e.node)):
+                    if not seen:
+                        stale = p
+                    break
+        ctx.check(stale is None, "R05.4", g.where(call), f"the node list `{lv}` searched for a region is looked up or built in the same iteration (a cache hit must read the cache, not keep the previous region's list)", key_of(g, f"stale-node-list:{lv}"), **({"path": stale.show()} if stale else {}))
     # the per-contig list: all index keys of that contig (tuple keys), sorted by start
     filt = [n for n in walk_own(g.node) if isinstance(n, ast.Compare) and len(n.ops) == 1 and isinstance(n.ops[0], ast.Eq) and isinstance(n.left, ast.Subscript) and const_value(n.left.slice) == 1 and isinstance(n.comparators[0], ast.Name)]
     ctx.check(len(filt) == 1, "R05.4", g.where(), "the nodes searched for a region are the index entries of the region's contig (key position 1 == contig)", key_of(g, f"contig-filter:{[norm(x) for x in filt]}"))
